@@ -370,6 +370,9 @@ func (rm *ResponseManager) startTask(task *peertask.Task, p peer.ID) queryexecut
 	taskData := rm.taskDataForKey(requestID)
 	if taskData.Empty {
 		rm.responseQueue.TaskDone(p, task)
+	} else {
+		// remember which task executes this response (see finishTask)
+		rm.inProgressResponses[requestID].task = task
 	}
 
 	return taskData
@@ -391,6 +394,15 @@ func (rm *ResponseManager) finishTask(task *peertask.Task, p peer.ID, err error)
 	rm.responseQueue.TaskDone(p, task)
 	response, ok := rm.inProgressResponses[requestID]
 	if !ok {
+		return
+	}
+	if response.task != task {
+		// the task belongs to an earlier response with the same request ID that is already
+		// gone; the response now in the table is a new request whose own task could not be
+		// queued while this one was still active in the task queue: queue it now
+		if response.state == graphsync.Queued {
+			rm.responseQueue.PushTask(response.peer, peertask.Task{Topic: requestID, Priority: int(response.request.Priority()), Work: 1})
+		}
 		return
 	}
 	if response.networkError {
